@@ -1,6 +1,7 @@
 package props
 
 import (
+	"strconv"
 	"fmt"
 	"strings"
 	"time"
@@ -29,12 +30,12 @@ var c02Space = mkSpace("sso", []fieldDim{
 	{"ACSIdx", []string{"", "0", "1", "99"}},
 	{"ProtoB", []string{"", "post", "redirect", "artifact", "junk"}},
 	{"Dest", []string{"", "absent", "host", "slo-endpoint"}},
-	{"Relay", []string{"", "none", "url"}},
+	{"Relay", []string{"", "none", "url", "long-1000", "long-7000", "long-8192", "long-65536"}},
 	{"Extra", []string{"", "response-fields"}},
 	{"Transport", []string{"", "post"}},
 	{"Issuer", []string{"", "b", "unregistered", "evil+a"}},
 	{"NOOA", []string{"", "-1us"}},
-	{"ID", []string{"", "absent"}},
+	{"ID", []string{"", "absent", "long-12000"}},
 	{"XML", []string{"", "ill-formed"}},
 	{"Persist", []string{"", "error"}},
 	{"Sign", []string{"", "redirect-sha256"}},
@@ -279,6 +280,7 @@ type c02Injected struct {
 	URL, Binding int
 	Done         bool
 	Relay        string
+	Size         string // "" | groups-N (the user has N group values) | relay-N (RelayState of N characters) | reqid-N (request ID of N characters)
 }
 
 func c02JudgeInjected(c c02Injected) c02Verdict {
@@ -288,9 +290,22 @@ func c02JudgeInjected(c c02Injected) c02Verdict {
 	if err != nil {
 		panic(err)
 	}
-	r := w.Store.Inject(world.AuthReq{AppID: "app-a", ACS: c02StoredURLs[c.URL], Binding: c02StoredBindings[c.Binding], RequestID: "_orig", RelayState: c.Relay})
+	reqID, relay, user := "_orig", c.Relay, "u-alice"
+	if i := strings.Index(c.Size, "-"); i > 0 {
+		n, _ := strconv.Atoi(c.Size[i+1:])
+		switch c.Size[:i] {
+		case "groups":
+			w.Store.AddUser(world.BigUser("u-big", "biggie", n))
+			user = "u-big"
+		case "relay":
+			relay = world.LongToken(n)
+		case "reqid":
+			reqID = "_" + world.LongToken(n-1)
+		}
+	}
+	r := w.Store.Inject(world.AuthReq{AppID: "app-a", ACS: c02StoredURLs[c.URL], Binding: c02StoredBindings[c.Binding], RequestID: reqID, RelayState: relay})
 	if c.Done {
-		w.Store.Complete(r.ID, "u-alice")
+		w.Store.Complete(r.ID, user)
 	}
 	rep := callbackReq(w, "", r.ID)
 	cm := obs.Decode(rep)
@@ -388,14 +403,25 @@ func runC02(ctx Ctx) int {
 		for b := range c02StoredBindings {
 			for _, d := range []bool{false, true} {
 				for _, rs := range []string{"", "rs-1"} {
-					inj = append(inj, c02Injected{u, b, d, rs})
+					inj = append(inj, c02Injected{URL: u, Binding: b, Done: d, Relay: rs})
 				}
+			}
+		}
+	}
+	// sizes: replies whose message, RelayState or request ID is large (an implementation may treat "too big for a redirect" specially)
+	for _, sz := range []string{"groups-50", "groups-120", "groups-200", "groups-400", "groups-1000", "groups-2500", "relay-80", "relay-1000", "relay-4000", "relay-7000", "relay-8192", "relay-16384", "relay-65536", "reqid-1000", "reqid-8192", "reqid-12000"} {
+		for b := 0; b < 2; b++ {
+			for _, d := range []bool{false, true} {
+				inj = append(inj, c02Injected{URL: 0, Binding: b, Done: d, Relay: "rs-1", Size: sz}, c02Injected{URL: 1, Binding: b, Done: d, Relay: "rs-1", Size: sz})
 			}
 		}
 	}
 	_, c2 := parallel(len(inj), deadline, func(i int) {
 		c := inj[i]
 		labels := []string{fmt.Sprintf("stored-url=%q", c02StoredURLs[c.URL]), "stored-binding=" + c02StoredBindings[c.Binding], fmt.Sprintf("done=%v", c.Done)}
+		if c.Size != "" {
+			labels = append(labels, "size="+c.Size)
+		}
 		report(c02JudgeInjected(c), "callback", labels, c02Replay{Injected: &c})
 	})
 	// C: logout (only the delivery clauses of the C13 oracle count here)
